@@ -13,7 +13,7 @@ REPO = os.environ.get("VERIF_REPO", "/repo")
 GUARD = "NOSTR_RELAY_VERIF"
 
 # max_limit wanted at import time, per property (small so the cap is reachable)
-MAX_LIMITS = {"C12": 7}
+MAX_LIMITS = {"C12": 7, "C19": 1000}
 DEFAULT_MAX_LIMIT = 60
 
 SERVICE_SK = "9627da965699a2a3048f97b77df5047e8cd0d11daca75e7687d0b28b65416a3c"
